@@ -310,6 +310,10 @@ pub struct Case {
     /// C17: the tasks contend on the internal lock instead of using a channel
     #[serde(default)]
     pub lock_harness: bool,
+    /// quiescent epilogue run by main after all tasks have finished (needs main_keeps_roots;
+    /// handle 0 = sender root, handle 1 = receiver root)
+    #[serde(default)]
+    pub epilogue: Vec<Op>,
 }
 
 impl Case {
